@@ -282,12 +282,15 @@ func (w *World) materialise(it Intent, h int64, idx int, sc *blockScratch) *TxPl
 		}
 	}
 	if isEVM {
-		if sc.gasEVM+gas > 24_000_000 && gas <= 24_000_000 {
+		// a repeated copy of a contract tx that fails inside the EVM is executed again (nothing changed, so
+		// its nonce is still right) and draws on the pool again
+		copies := uint64(1 + it.Repeat)
+		if sc.gasEVM+gas*copies > 24_000_000 && gas <= 24_000_000 {
 			// keep the block gas pool out of the picture (see DESIGN: not a property)
 			gas = gov.MinTrxGas
 		}
 		if gas <= 24_000_000 {
-			sc.gasEVM += gas
+			sc.gasEVM += gas * copies
 		}
 	}
 	fee := new(big.Int).Mul(price, new(big.Int).SetUint64(gas))
@@ -431,7 +434,25 @@ func (w *World) materialise(it Intent, h int64, idx int, sc *blockScratch) *TxPl
 
 	chain := m.ChainID
 	if it.WrongChain {
-		chain = chain + "-other"
+		// a sibling chain: other text, or only the trailing number / its presence differs
+		switch (int(h) + idx + it.Actor) % 4 {
+		case 0:
+			chain = chain + "-other"
+		case 1:
+			chain = chain + "-1"
+		case 2:
+			if i := strings.LastIndex(chain, "-"); i > 0 {
+				chain = chain[:i]
+			} else {
+				chain = chain + "0"
+			}
+		default:
+			if i := strings.LastIndex(chain, "-"); i > 0 {
+				chain = chain[:i+1] + "0" + chain[i+1:] // verif-956 -> verif-0956
+			} else {
+				chain = strings.ToUpper(chain)
+			}
+		}
 		p.Tampered = true
 	}
 	if it.EmptyChain {
@@ -585,8 +606,24 @@ func (w *World) applyMutation(p *TxPlan, tx *rtypes.Trx, mu *Mutation, act *Acto
 	case "payload":
 		switch pl := tx.Payload.(type) {
 		case *rtypes.TrxPayloadUnstaking:
+			// re-target the signed release to another stake of the same owner under the same delegatee
+			// (executable if the signature does not cover the hash); otherwise a hash that names nothing
+			var other []byte
+			for _, st := range w.M.AllStakes {
+				if st.Owner == ToAddr(tx.From) && st.To == ToAddr(tx.To) && !w.M.Refunded[st.Seq] && st.ID != hex.EncodeToString(pl.TxHash) && st.ID != zeroHashHex {
+					if d := w.M.Delegs[st.To]; d != nil {
+						for _, b := range d.Stakes {
+							if b == st {
+								other, _ = hex.DecodeString(st.ID)
+							}
+						}
+					}
+				}
+			}
 			h := append([]byte(nil), pl.TxHash...)
-			if len(h) > 0 {
+			if other != nil {
+				h = other
+			} else if len(h) > 0 {
 				h[len(h)-1] ^= 1
 			}
 			pl.TxHash = h
@@ -624,7 +661,9 @@ func (w *World) applyMutation(p *TxPlan, tx *rtypes.Trx, mu *Mutation, act *Acto
 		case *rtypes.TrxPayloadContract:
 			pl.Data = append(append([]byte(nil), pl.Data...), 0)
 		case *rtypes.TrxPayloadSetDoc:
-			if mu.How == "url" {
+			if pl.Name != pl.URL && (pl.Name == "" || pl.URL == "" || mu.How == "opt") {
+				pl.Name, pl.URL = pl.URL, pl.Name // the same two strings in the other fields
+			} else if mu.How == "url" {
 				pl.URL += "x"
 			} else {
 				pl.Name += "x"
